@@ -529,6 +529,20 @@ func c18RunQueries(c *vx.Check) {
 		for _, b := range cfg.bits {
 			fmt.Fprintf(&sb, "Set(%d, f=%d, %s)\n", b.col, b.row, c18TS(b.t))
 		}
+		// ONE column of row 1 set at several timestamps (every 4th bit of the grid): the same bit then
+		// lives in views that share their coarser units, and must be found through each of them
+		{
+			var multi []c18Bit
+			for k := 0; k < len(cfg.bits); k += 8 {
+				if cfg.bits[k].row == 1 {
+					multi = append(multi, c18Bit{1, 888888, cfg.bits[k].t})
+				}
+			}
+			for _, b := range multi {
+				fmt.Fprintf(&sb, "Set(%d, f=%d, %s)\n", b.col, b.row, c18TS(b.t))
+			}
+			cfg.bits = append(append([]c18Bit(nil), cfg.bits...), multi...)
+		}
 		if !cfg.nsv {
 			// bits WITHOUT a timestamp live in the standard view only: a column of row 1 and a row of its
 			// own (7). No time range may ever return them, however much of the data it spans.
@@ -567,9 +581,11 @@ func c18RunQueries(c *vx.Check) {
 				e := cfg.cuts[ei]
 				var wantCols, wantRows []uint64
 				rs := map[uint64]bool{}
+				cs := map[uint64]bool{}
 				for _, b := range cfg.bits {
 					if !b.t.Before(s) && b.t.Before(e) {
-						if b.row == 1 {
+						if b.row == 1 && !cs[b.col] {
+							cs[b.col] = true
 							wantCols = append(wantCols, b.col)
 						}
 						if !rs[b.row] {
